@@ -8,6 +8,11 @@ GROUPS = [G("decoder_process_int16"), G("decoder_process_float32"), G("decoder_s
           G("decoder_hyp"), G("decoder_seg_iter"), G("decoder_lattice"),
           dict(name="alignment_init_refcount", harness="harness/C09_refcount.c", entry="h_alignment_init", enforce="alignment_init", replace=["dict2pid_retain"], allow_no_body=["*"], min_postconditions=2),
           dict(name="alignment_free_refcount", harness="harness/C09_refcount.c", entry="h_alignment_free", enforce="alignment_free", replace=["dict2pid_free"], allow_no_body=["*"], min_postconditions=2)]
+NATIVE = [
+    dict(name="e2e_invariants", source="native/e2e_invariants.c", repo_sources="ALL_EXCEPT:", cflags=["-w", "-fsanitize=address"],
+         args={"quick": ["C09"], "thorough": ["C09"]}, exhaustive=False,
+         bound="end-to-end invariants of this property on ~12 real decodes (bundled en-us / fr-fr models; goforward recordings with JSGF grammar, FSG file and forced-alignment text; one call, 2048-sample blocks with partial results, float32; digital silence; white noise) under AddressSanitizer -- a safety net under the contracts, not a proof"),
+]
 ASSUMPTIONS = [
     "only the guards are decided: each contract fixes an out-of-protocol state (or a missing search module) in its precondition; the in-protocol behaviour of the same entry points is not covered here",
     "every callee of decoder.c has no body in these groups: reaching one is reported as a failed obligation, which is how 'changes nothing' is checked",
@@ -17,5 +22,5 @@ HAND_LEMMAS = []
 NOT_COVERED = ["arbitrary in-protocol API sequences over the whole decoder object graph (no representation invariant for acmod/lextree/dictionary is within reach)", "leak freedom after the last release", "iterator life cycles (seg/hash/alignment iterators): bounded checks exist only for the hash table (C20)", "decoder_alignment, decoder_nbest, decoder_result_json guards"]
 CLAIM = dict(
     text="Typestate contracts on the public decoder entry points: with the decoder and acoustic-model objects fully symbolic, audio passed before start or after end is refused with the documented value and an empty frame (no callee reached, nothing assigned); starting twice and ending without start return -1 with an empty frame; hypothesis, segmentation and lattice requests without a search module return NULL. Reference counting of the alignment object over its dict2pid: alignment_init takes exactly one counted reference, alignment_free gives it back exactly when the last reference to the alignment is dropped (ghost call counters). Proved per entry point (loop-free in the selected case, full domain). The general statement over every API sequence is NOT decided.",
-    note="guards only; in-protocol behaviour, leaks, iterator life cycles and reference counting not covered; one genuine defect (audio accepted after end_utt) found and fixed; trusted: CBMC 6.11",
-    technique="CBMC function contracts (goto-instrument --dfcc) with empty assigns clauses; callee reachability as obligations")
+    note="guards only; in-protocol behaviour, leaks, iterator life cycles and reference counting not covered; one genuine defect (audio accepted after end_utt) found and fixed; trusted: CBMC 6.11; end-to-end invariants on ~12 real decodes by a bounded native run (native/e2e_invariants.c), never counted as proved",
+    technique="CBMC function contracts (goto-instrument --dfcc) with empty assigns clauses; callee reachability as obligations; plus a bounded native run of the property's end-to-end invariants on real decodes (safety net, not proof)")
